@@ -350,6 +350,17 @@ func (e *Ev) specCall(name string, n *ast.CallExpr) (Term, bool) {
 			return Term{S: app(e.allocPred, s), Sort: sBool, T: boolT}, true
 		}
 		return Term{S: app("fresh$", s), Sort: sBool, T: boolT}, true
+	case "calls":
+		// calls("KEY"): how many calls of function KEY the path has made so far (a ghost counter;
+		// lets a contract say that one call is always accompanied by another)
+		if lit, ok := n.Args[0].(*ast.BasicLit); ok {
+			key := strings.Trim(lit.Value, "\"`")
+			if t, ok := e.st.named["$calls:"+key]; ok {
+				return Term{S: t.S, Sort: sInt, T: types.Typ[types.Int], Signed: true}, true
+			}
+			return Term{S: "0", Sort: sInt, T: types.Typ[types.Int], Signed: true}, true
+		}
+		return e.errorf(n, "calls: needs a string literal"), true
 	case "oldElem":
 		// oldElem(s, j): element j of slice s (header and index evaluated NOW) as it was in the
 		// old state; for invariants that relate a local index to the entry contents
